@@ -42,7 +42,7 @@ WITNESS = [
     (r"hashes::", "board", "inkayaku_board", "c06_hashes.rs", "witness_c06"),
     (r"eval::", "append:engine_core/src/engine/heuristic/simple.rs", "inkayaku_engine_core", "c11_symmetry.rs", "verif_witness_c11"),
     (r"heuristic::(SearchFragE::|calculate_heuristic_factor)", "append:engine_core/src/engine/search.rs", "inkayaku_engine_core", "c11_search_view.rs", "verif_witness_c11_search"),
-    (r"heuristic::Heuristic::(score_from_value|is_checkmate)", "append:engine_core/src/engine/heuristic/simple.rs", "inkayaku_engine_core", "c11_symmetry.rs", "verif_witness_c11_mate"),
+    (r"heuristic::Heuristic::(score_from_value|is_checkmate|win_score|loss_score|draw_score)", "append:engine_core/src/engine/heuristic/simple.rs", "inkayaku_engine_core", "c11_symmetry.rs", "verif_witness_c11_mate"),
     (r"search_rep::", "engine_core", "inkayaku_engine_core", "c10_repetition.rs", "witness_c10"),
     (r"lemma_shipped_thresholds|Heuristic::evaluate", "append:engine_core/src/engine/heuristic/simple.rs", "inkayaku_engine_core", "c10_fifty_move.rs", "verif_witness_c10"),
 ]
